@@ -79,14 +79,25 @@ func main() {
 			}
 			defer backendConn.Close()
 
+			// When either direction of the bridge ends (because one of the peers
+			// closed its connection or failed), close both connections so that the
+			// other direction also ends and the other peer observes the close.
+			//
+			// Everything read before that point has already been written by io.Copy.
+			closeBoth := func() {
+				backendConn.Close()
+				conn.Close()
+			}
 			var wg sync.WaitGroup
 			wg.Add(2)
 			go func() {
 				defer wg.Done()
+				defer closeBoth()
 				io.Copy(backendConn, conn)
 			}()
 			go func() {
 				defer wg.Done()
+				defer closeBoth()
 				io.Copy(conn, backendConn)
 			}()
 			wg.Wait()
